@@ -45,7 +45,7 @@ impl Property for C12 {
         true
     }
     fn expected_labels() -> Vec<&'static str> {
-        vec!["faces", "wild", "voxels", "chains", "box", "cylinder", "bowtie", "flipped", "multi_component", "closed", "holes_or_open", "nonmanifold_rejected", "hash_order_repeats", "unit_below_1e-6", "unit_above_1e3"]
+        vec!["faces", "wild", "voxels", "chains", "box", "cylinder", "bowtie", "flipped", "multi_component", "closed", "holes_or_open", "nonmanifold_rejected", "hash_order_repeats", "unit_below_1e-6", "unit_above_1e3", "patches_touching_in_a_vertex"]
     }
     fn enumerated(t: Tier) -> Vec<Case> {
         let mut out = vec![];
@@ -280,8 +280,15 @@ fn mesh_checks(mut cx: Ctx, v: Vec<Point3>, f: Vec<[u32; 3]>) -> Verdict {
             }
         }
     }
-    // patch boundaries on clean meshes
-    if topo.manifold && topo.consistent && !topo.vertex_only_contact {
+    // patch boundaries on clean meshes.  Two different patches may touch in a vertex (each is walked on its own); what is
+    // excluded is a patch that is pinched in one of its own vertices
+    let per_patch_clean = !topo.vertex_only_contact
+        || expect_patches.iter().all(|p| {
+            let pf: Vec<[u32; 3]> = p.iter().map(|i| f[*i]).collect();
+            !Topo::of(v.len(), &pf).vertex_only_contact
+        });
+    cx.label_if(topo.vertex_only_contact && per_patch_clean && topo.manifold && topo.consistent, "patches_touching_in_a_vertex");
+    if topo.manifold && topo.consistent && per_patch_clean {
         match guarded(|| mesh.get_patch_boundary_points().map_err(|e| e.to_string())) {
             Ok(Ok(loops)) => {
                 let mut used: Vec<((u64, u64, u64), (u64, u64, u64))> = vec![];
